@@ -22,6 +22,8 @@ pub enum Op {
     #[serde(with = "crate::case::hexbytes")]
     FromBytes(Vec<u8>),
     Reset,
+    /// the caller moves the public `output` buffer out of the generator (std::mem::take)
+    TakeOutput,
 }
 
 #[derive(Clone, Debug, Serialize, Deserialize)]
@@ -36,6 +38,7 @@ pub fn seq_strategy(p: &Profile, maxlen: usize) -> BoxedStrategy<SeqCase> {
         3 => Just(Op::Generate),
         4 => case::bytes_entropy().prop_map(Op::FromBytes),
         2 => Just(Op::Reset),
+        1 => Just(Op::TakeOutput),
     ];
     let last = prop_oneof![1 => Just(Op::Generate), 1 => case::bytes_entropy().prop_map(Op::FromBytes)];
     (case::gencase(p), any::<u64>(), proptest::collection::vec(op, 0..maxlen), last)
@@ -51,7 +54,7 @@ fn entropy_of(base: &GenCase, op: &Op) -> Option<Entropy> {
     match op {
         Op::Generate => Some(base.entropy.clone()),
         Op::FromBytes(b) => Some(Entropy::Bytes(b.clone())),
-        Op::Reset => None,
+        Op::Reset | Op::TakeOutput => None,
     }
 }
 
@@ -63,8 +66,12 @@ pub fn check_c08(ctx: &Ctx, sc: &SeqCase, st: &mut Stats) -> Result<(), Fail> {
     let mut last_digest = 0u64;
     for (i, op) in sc.ops.iter().enumerate() {
         let Some(e) = entropy_of(&sc.base, op) else {
-            g.reset();
-            calls_since_reset = 0;
+            if matches!(op, Op::TakeOutput) {
+                let _ = std::mem::take(&mut g.output);
+            } else {
+                g.reset();
+                calls_since_reset = 0;
+            }
             continue;
         };
         let got = call_gen(&mut g, &e);
@@ -116,7 +123,7 @@ pub fn check_c08(ctx: &Ctx, sc: &SeqCase, st: &mut Stats) -> Result<(), Fail> {
         st.label("has >= 2 generation calls without reset in between");
         st.nontrivial(last_digest ^ util::digest_str(&format!("{:?}", sc.ops.len())));
         st.sample(|| {
-            json!({"config": sc.base.brief(), "ops": sc.ops.iter().map(|o| match o { Op::Generate => "generate".to_string(), Op::Reset => "reset".to_string(), Op::FromBytes(b) => format!("from_bytes[{}]", b.len()) }).collect::<Vec<_>>()})
+            json!({"config": sc.base.brief(), "ops": sc.ops.iter().map(|o| match o { Op::Generate => "generate".to_string(), Op::Reset => "reset".to_string(), Op::TakeOutput => "take(output)".to_string(), Op::FromBytes(b) => format!("from_bytes[{}]", b.len()) }).collect::<Vec<_>>()})
         });
     }
     if sc.ops.iter().any(|o| matches!(o, Op::Reset)) {
@@ -167,6 +174,9 @@ pub fn check_c14(ctx: &Ctx, sc: &SeqCase, st: &mut Stats) -> Result<(), Fail> {
         let mut g = sc.base.build(None);
         for op in &sc.ops {
             match entropy_of(&sc.base, op) {
+                None if matches!(op, Op::TakeOutput) => {
+                    let _ = std::mem::take(&mut g.output);
+                }
                 None => g.reset(),
                 Some(e) => match call_gen(&mut g, &e) {
                     Ok(o) => {
